@@ -219,6 +219,44 @@ theorem tryGet_ofList (kvs : List (κ × ν)) (k : κ) :
   rw [tryGet_foldl]
   cases kvs.reverse.find? (fun e => e.1 == k) <;> simp [mTryGet]
 
+theorem tryGet_append (a b : M κ ν) (k : κ) :
+    mTryGet (a ++ b) k = match mTryGet a k with | some v => some v | none => mTryGet b k := by
+  induction a with
+  | nil => simp [mTryGet]
+  | cons e a ih =>
+    rw [List.cons_append, tryGet_cons, tryGet_cons, ih]
+    by_cases h : e.1 = k <;> simp [h]
+
+theorem tryGet_filter_not_left (l r : M κ ν) (k : κ) (h : mContains l k = false) :
+    mTryGet (r.filter fun e => !(mContains l e.1)) k = mTryGet r k := by
+  induction r with
+  | nil => rfl
+  | cons e r ih =>
+    simp only [List.filter_cons]
+    by_cases he : e.1 = k
+    · have : mContains l e.1 = false := he ▸ h
+      simp only [this, Bool.not_false, if_true]
+      rw [tryGet_cons, tryGet_cons]
+      simp [he]
+    · cases hc : mContains l e.1
+      · simp only [Bool.not_false, if_true]
+        rw [tryGet_cons, tryGet_cons, ih]
+      · simp only [Bool.not_true, Bool.false_eq_true, if_false]
+        rw [tryGet_cons, ih]
+        simp [he]
+
+/-- `hash-union`: the left map wins on common keys -/
+theorem tryGet_union (l r : M κ ν) (k : κ) :
+    mTryGet (mUnion l r) k = match mTryGet l k with | some v => some v | none => mTryGet r k := by
+  unfold mUnion
+  rw [tryGet_append]
+  cases hl : mTryGet l k with
+  | some v => rfl
+  | none =>
+    have hc : mContains l k = false := by rw [contains_iff_tryGet, hl]; rfl
+    simp only
+    exact tryGet_filter_not_left l r k hc
+
 /-! ## finite sets -/
 
 theorem sInsert_of_mem (s : S κ) (k : κ) (h : k ∈ s) : sInsert s k = s := by
@@ -275,6 +313,19 @@ theorem sContains_ofList (ks : List κ) (k : κ) : sContains (sOfList ks) k = ks
   unfold sOfList
   rw [sContains_foldl, sContains_eq]
   by_cases h : k ∈ ks <;> simp [h]
+
+theorem sContains_union (s t : S κ) (k : κ) : sContains (sUnion s t) k = (sContains s k || sContains t k) := by
+  simp only [sContains_eq, sUnion]
+  by_cases h1 : k ∈ s <;> by_cases h2 : k ∈ t <;> simp [h1, h2, List.mem_append, List.mem_filter]
+
+theorem sContains_inter (s t : S κ) (k : κ) : sContains (sInter s t) k = (sContains s k && sContains t k) := by
+  simp only [sContains_eq, sInter]
+  by_cases h1 : k ∈ s <;> by_cases h2 : k ∈ t <;> simp [h1, h2, List.mem_filter]
+
+theorem sContains_symDiff (s t : S κ) (k : κ) :
+    sContains (sSymDiff s t) k = (sContains s k != sContains t k) := by
+  simp only [sContains_eq, sSymDiff]
+  by_cases h1 : k ∈ s <;> by_cases h2 : k ∈ t <;> simp [h1, h2, List.mem_append, List.mem_filter]
 
 theorem sNodup_insert (s : S κ) (k : κ) (h : s.Nodup) : (sInsert s k).Nodup := by
   by_cases hc : k ∈ s
